@@ -86,7 +86,7 @@ func jvd(v *lisp.LVal, depth int) interface{} {
 	if v == nil {
 		return J{"t": "gonil"}
 	}
-	if depth > 40 {
+	if depth > 10 {
 		return J{"t": "deep"}
 	}
 	switch v.Type {
